@@ -95,7 +95,7 @@ Proof.
   - destruct (list_eqb p' p && list_eqb r' r) eqn:E; [reflexivity|discriminate].
   - cbn [link_wf] in Hwf.
     destruct (Z.eqb_spec et tty) as [->|]; cbn [negb] in Hacc; [|discriminate].
-    destruct (Z.ltb_spec tmin mn); [discriminate|].
+    destruct (Z.ltb_spec (Z.max tmin tlen) mn); [discriminate|].
     unfold limits_match; cbn [l_min l_hasmax l_max]. rewrite Z.eqb_refl, andb_true_r.
     destruct hm.
     + destruct thm; cbn [negb] in Hacc; [|discriminate]. destruct (Z.ltb_spec mx tmx); [discriminate|].
@@ -149,12 +149,42 @@ Example shared_flag_combinations :
   extern_match (spec_of_xobj (x true)) (spec_of_idesc (d true)) = true.
 Proof. cbv zeta. splits; vm_compute; reflexivity. Qed.
 
-(* the code is stricter than the specification for tables: it compares with the DECLARED minimum, not the length *)
-Lemma stricter_than_spec_example : exists L d x,
-  link_wf L d x /\ extern_match (spec_of_xobj x) (spec_of_idesc d) = true /\ code_accept L d x <> 0.
+(* ... and conversely ("exactly when"): whatever the specification's subtyping accepts is accepted. Tables are judged
+   against their CURRENT size (an import may ask for more than the declared minimum once the table has grown), exactly as
+   memories are. *)
+Lemma import_accept_complete L d x :
+  link_wf L d x -> extern_match (spec_of_xobj x) (spec_of_idesc d) = true -> code_accept L d x = 0.
 Proof.
-  exists 65536, (DTable 3 false 0 112), (XTable 1 false 0 112 5). splits; cbn; [lia|reflexivity|discriminate].
+  intros Hwf Hm. destruct d as [p r|mn hm mx et|mn hm mx sh|mu v], x as [p' r'|tmin thm tmx tty tlen|buflen maxN ehm emx xsh|mu' v'];
+    cbn [spec_of_xobj spec_of_idesc extern_match] in Hm; try discriminate; cbn [code_accept].
+  - rewrite Hm. reflexivity.
+  - apply andb_prop in Hm. destruct Hm as [Hl He]. apply Z.eqb_eq in He. subst tty. rewrite Z.eqb_refl. cbn [negb].
+    unfold limits_match in Hl; cbn [l_min l_hasmax l_max] in Hl. apply andb_prop in Hl. destruct Hl as [H1 H2].
+    destruct (Z.ltb_spec (Z.max tmin tlen) mn); [lia|].
+    destruct hm; [|reflexivity].
+    apply andb_prop in H2. destruct H2 as [H2 H3]. rewrite H2. cbn [negb].
+    destruct (Z.ltb_spec mx tmx); [lia|reflexivity].
+  - cbn [link_wf] in Hwf. destruct Hwf as (Hb & HL & Hmx & Hem & emn & ->).
+    apply andb_prop in Hm. destruct Hm as [Hl Hs]. apply Bool.eqb_prop in Hs. subst xsh.
+    unfold limits_match in Hl; cbn [l_min l_hasmax l_max] in Hl. apply andb_prop in Hl. destruct Hl as [H1 H2].
+    rewrite pages_of_buflen by exact Hb. rewrite !norm_max_val by assumption.
+    destruct (Z.ltb_spec (buflen / 65536) mn); [lia|].
+    assert (Hle : ((if hm then mx else L) <? (if ehm then emx else L)) = false).
+    { apply Z.ltb_ge. destruct hm.
+      - apply andb_prop in H2. destruct H2 as [H2 H3]. rewrite H2. lia.
+      - destruct ehm; [specialize (Hem eq_refl); lia|lia]. }
+    rewrite Hle. rewrite Bool.eqb_reflx. reflexivity.
+  - apply andb_prop in Hm. destruct Hm as [H1 H2]. apply Bool.eqb_prop in H1. apply Z.eqb_eq in H2. subst.
+    rewrite Bool.eqb_reflx, Z.eqb_refl. reflexivity.
 Qed.
+
+(* a grown table: declared minimum 1, five elements now; an import asking for 3 matches and is accepted, one asking for 6 is not *)
+Example table_current_size_example :
+  link_wf 65536 (DTable 3 false 0 112) (XTable 1 false 0 112 5) /\
+  extern_match (spec_of_xobj (XTable 1 false 0 112 5)) (spec_of_idesc (DTable 3 false 0 112)) = true /\
+  code_accept 65536 (DTable 3 false 0 112) (XTable 1 false 0 112 5) = 0 /\
+  code_accept 65536 (DTable 6 false 0 112) (XTable 1 false 0 112 5) = 4.
+Proof. cbn. splits; try reflexivity; lia. Qed.
 
 (* ... and laxer in exactly the excluded case: open finding, replayed on both engines by the check *)
 Lemma memory_unbounded_refuted : exists L d x,
